@@ -24,6 +24,7 @@ func addGroups(t *rapid.T, ty *desc.T, tag string) {
 	for g := 1; g <= ngroups; g++ {
 		kind := rapid.SampledFrom([]string{"either", "botheq"}).Draw(t, "groupKind")
 		// members: fields of one scalar kind (botheq compares members of one type)
+		id := rapid.IntRange(1, 2).Draw(t, "groupID") // ids may coincide across kinds: still two groups
 		var first string
 		members := 0
 		for i := range ty.Fields {
@@ -40,7 +41,10 @@ func addGroups(t *rapid.T, ty *desc.T, tag string) {
 			if f.Tags == nil {
 				f.Tags = map[string]string{}
 			}
-			item := fmt.Sprintf("%s=%d", kind, g)
+			item := fmt.Sprintf("%s=%d", kind, id)
+			if strings.Contains(","+f.Tags[tag]+",", ","+item+",") {
+				continue
+			}
 			if f.Tags[tag] == "" {
 				f.Tags[tag] = item
 			} else if rapid.Bool().Draw(t, "groupFirst") {
